@@ -26,6 +26,8 @@ CONSTANTS
     CBatch, SLimit, SBatch, CLimit,
     Mode,         \* "polling" | "upgrade" (open on polling, then upgrade) | "websocket" (direct)
     CountPings,   \* BOOLEAN: FALSE = heartbeats are not counted (MaxPing is ignored)
+    Flush,        \* BOOLEAN: the client's write loop still sends what disconnect() queued when
+                  \* it was busy with a POST (TRUE in the code since the repair of F25)
     AllowDisc     \* subset of {"client", "server"}: who may call disconnect()
 
 VARIABLES
@@ -211,7 +213,8 @@ SPostDone == /\ post.st = "proc" /\ S.inbox = <<>>
 CPostDone == /\ post.st = "resp"
              /\ post' = None
              /\ C' = IF post.code # 200 /\ C.ph = "up" THEN CAbort(C)
-                     ELSE IF C.ph = "closing" /\ C.q = <<>> THEN [C EXCEPT !.ph = "closed"]
+                     ELSE IF C.ph = "closing" /\ (C.q = <<>> \/ ~Flush)
+                     THEN [C EXCEPT !.ph = "closed", !.q = <<>>]
                      ELSE C
              /\ UNCHANGED <<S, get, c2s, s2c>>
 
